@@ -7,6 +7,7 @@ import Scico.Model.Autograd
   * `hess`   {n, m, s, A, w, x}              → `hessianApply` at `x` and the dense `hessianMat`, `sqL2LossGradSpec`
   * `jac`    {n, m, P, Q, Fu, v, w, conjugate, include_eval}
                                             → jvp, vjp (Gmap), Jacobian operator eval/adj
+  * `opjac`  {n, m, F={A,B,C,c}, u, v, w}    → `Op.eval u`, `Op.jvp u v`, `Gmap w` (both flags) of the operator family
   * `linadj` {n, m, M, cprimal, cout, y}     → `linearAdjoint` applied to `y`
   * `args`   {index, args}                   → `fixArgs`, `sliceArgs`, `cvjpArgs` on labelled arguments
   * `heap`   {ops}                           → eval/grad scale of every `Loss` object after a history
@@ -40,6 +41,10 @@ def jCV {n : Nat} (v : CV n) : Json :=
 def jMat {m n : Nat} (A : Mat Float m n) : Json :=
   jObj [("re", jArr ((List.ofFn A).map (fun r => jFs ((List.ofFn r).map (·.re))))),
         ("im", jArr ((List.ofFn A).map (fun r => jFs ((List.ofFn r).map (·.im)))))]
+
+def getOp? (j : Json) (n m : Nat) : Option (Op Float n m) := do
+  some ⟨← getMat? (← field? j "A") m n, ← getMat? (← field? j "B") m n, ← getMat? (← field? j "C") m n,
+        ← getCV? (← field? j "c") m⟩
 
 /-- parse a functional tree for argument size `n` -/
 partial def getFn? (n : Nat) (j : Json) : Option (Fn Float n) := do
@@ -82,6 +87,22 @@ partial def getFn? (n : Nat) (j : Json) : Option (Fn Float n) := do
   | "sqL2SqAbsLoss" =>
     let m ← fNat? j "m"
     some (.sqL2SqAbsLoss (← fFloat? j "s") (← getMat? (← field? j "A") m n) (← getRV? (← field? j "y") m)
+      (← getRV? (← field? j "w") m))
+  | "sqL2AbsLoss" =>
+    let m ← fNat? j "m"
+    some (.sqL2AbsLoss (← fFloat? j "s") (← getMat? (← field? j "A") m n) (← getRV? (← field? j "y") m)
+      (← getRV? (← field? j "w") m))
+  | "poisson" =>
+    let m ← fNat? j "m"
+    some (.poisson (← fFloat? j "s") (← getMat? (← field? j "A") m n) (← getRV? (← field? j "y") m)
+      (← getRV? (← field? j "cst") m))
+  | "lossOp" =>
+    let m ← fNat? j "m"
+    some (.lossOp (← fFloat? j "s") (← getOp? (← field? j "F") n m) (← getCV? (← field? j "y") m)
+      (← getFn? m (← field? j "f")))
+  | "sqL2LossOp" =>
+    let m ← fNat? j "m"
+    some (.sqL2LossOp (← fFloat? j "s") (← getOp? (← field? j "F") n m) (← getCV? (← field? j "y") m)
       (← getRV? (← field? j "w") m))
   | _ => none
 
@@ -169,6 +190,15 @@ def handler : Handler := fun op j =>
       | none => jObj [("err", jS "dtype")]
     some (ok (jObj [("jvp", jCV (J v)), ("vjp", jCV (vjpWrap conjugate G w)), ("cvjp", jCV (cvjpWrap G w)),
                     ("jeval", outJ (jacobianEval inc Fu J v)), ("jadj", jadj)]))
+  | "opjac" => do
+    let n ← fNat? j "n"
+    let m ← fNat? j "m"
+    let F ← getOp? (← field? j "F") n m
+    let u ← getCV? (← field? j "u") n
+    let v ← getCV? (← field? j "v") n
+    let w ← getCV? (← field? j "w") m
+    some (ok (jObj [("eval", jCV (F.eval u)), ("jvp", jCV (F.jvp u v)), ("vjp", jCV (vjpWrap true (F.vjpT u) w)),
+                    ("vjp_noconj", jCV (vjpWrap false (F.vjpT u) w))]))
   | "linadj" => do
     let n ← fNat? j "n"
     let m ← fNat? j "m"
